@@ -321,7 +321,7 @@ fn body(ch: &Chooser, sp: &Space) -> Outcome {
         ch.tag("some-nonempty-answer");
     }
     if pruned > 0 {
-        ch.tag("some-query-with-min_offset>0");
+        ch.tag("some-query-where-pruning-removed-chunks");
     }
     if recs.len() >= 2 && recs.windows(2).any(|w| w[0].rid == w[1].rid && w[0].rid.is_some() && w[0].end > w[1].end) {
         ch.tag("long-record-before-shorter-one");
